@@ -1,0 +1,32 @@
+//go:build verif
+
+// Contracts for govc (contract-based deductive verification); comment-only, compiled only with -tags verif.
+package bridgesync
+
+// ---- global index (C19): value = flag * 2^64 + rollup * 2^32 + leaf  (rollup forced to 0 for mainnet)
+
+//@ func GenerateGlobalIndex
+//@   props C19
+//@   ensures[layout] result != nil && bigval(result) == ite(mainnetFlag, 18446744073709551616, rollupIndex * 4294967296) + localExitRootIndex
+
+//@ func DecodeGlobalIndex
+//@   props C19
+//@   requires globalIndex != nil
+//@   ensures[no-error] err == nil
+//@   ensures[flag] absInt(bigval(globalIndex)) < 4722366482869645213696 ==> mainnetFlag == (absInt(bigval(globalIndex)) >= 18446744073709551616)
+//@   ensures[rollup] absInt(bigval(globalIndex)) < 4722366482869645213696 ==> rollupIndex == (absInt(bigval(globalIndex)) / 4294967296) % 4294967296
+//@   ensures[leaf] absInt(bigval(globalIndex)) < 4722366482869645213696 ==> localExitRootIndex == absInt(bigval(globalIndex)) % 4294967296
+
+// encode / decode are inverse on the contract formulas (pure arithmetic over the two contracts above)
+//@ lemma giRoundTrip(f bool, r int, l int)
+//@   props C19
+//@   requires 0 <= r && r < 4294967296 && 0 <= l && l < 4294967296
+//@   ensures[flag] (ite(f, 18446744073709551616, r * 4294967296) + l >= 18446744073709551616) == f
+//@   ensures[rollup] ((ite(f, 18446744073709551616, r * 4294967296) + l) / 4294967296) % 4294967296 == ite(f, 0, r)
+//@   ensures[leaf] (ite(f, 18446744073709551616, r * 4294967296) + l) % 4294967296 == l
+//@   ensures[canonical] ite(f, 18446744073709551616, r * 4294967296) + l < 4722366482869645213696
+
+//@ lemma giCanonical(g int)
+//@   props C19
+//@   requires 0 <= g && (g < 18446744073709551616 || (g >= 18446744073709551616 && g < 18446744073709551616 + 4294967296))
+//@   ensures[regenerate] ite(g >= 18446744073709551616, 18446744073709551616, ((g / 4294967296) % 4294967296) * 4294967296) + g % 4294967296 == g
